@@ -17,7 +17,7 @@ CONSTANTS N0, MAXLEN
 VARIABLES M, hist, concR, concC
 
 CallSet(n) == {[c |-> x, arg |-> 0] : x \in {"transposed", "transpose", "convert_layout", "rr", "cc", "rc", "cr", "RR", "CC", "RC", "CR",
-                                              "identity", "zero", "with_diagonal", "map", "map2", "as", "slice_write"}}
+                                              "identity", "zero", "with_diagonal", "map", "map2", "as", "slice_write", "ptr_write", "mint_r", "mint_c"}}
               \cup {[c |-> "resize", arg |-> m] : m \in {2, 3, 4} \ {n}} \cup {[c |-> "set", arg |-> 1]}
 Init == M = Symbols(N0) /\ hist = <<>> /\ concR = <<"r", Symbols(N0)>> /\ concC = <<"c", Transp(Symbols(N0))>>
 Next == /\ Len(hist) < MAXLEN
